@@ -359,7 +359,12 @@ def run(ctx):
                 d_before = [float(dtw.distance(q, a, **shared)) for a in arrs]
                 m_before = np.asarray(dtw.distance_matrix(arrs, **shared)).tolist()
                 ssr = SubsequenceSearch(q, arrs, dists_options=shared)
+                k0 = [(float(m.distance), int(m.idx)) for m in ssr.kbest_matches(k=1)]
                 k1 = [(float(m.distance), int(m.idx)) for m in ssr.kbest_matches(k=2)]
+                kf = [(float(m.distance), int(m.idx)) for m in SubsequenceSearch(q, arrs, dists_options=dict(opts)).kbest_matches(k=2)]
+                if [d_ for d_, _ in k1] != [d_ for d_, _ in kf]:
+                    ctx.violation("history-dependence", what="kbest_matches(k=2) after kbest_matches(k=1) differs from a fresh object",
+                                  reused=k1, fresh=kf)
                 hm = H.Hierarchical(dtw.distance_matrix, shared, show_progress=False)
                 cl1 = hm.fit(arrs)
                 d_after = [float(dtw.distance(q, a, **shared)) for a in arrs]
